@@ -29,6 +29,7 @@ func runC15(p *eng.Prog, r *eng.Report, tier string) {
 	lockOrder(c, "C15.26")
 	c15CarrierTypes(c, "C15.24")
 	c15HandlerEncoderStays(c, "C15.28")
+	c15MessageCarrierDecodedWhole(c, "C15.29")
 	c.r.Floor("C15.27", "decode targets with namespace-blind attribute tags in ibb", attrTagsDecodeOwnAttributes(c, "C15.27", "ibb"), 2)
 	c.r.Floor("C15.25", "blocking channel operations in ibb", lockHeldAcrossChannelOp(c, "C15.25", "ibb."), 3)
 	c15Open(c)
@@ -1165,19 +1166,26 @@ func c15OnlyOwnRouteWithdrawn(c *cx, id string) {
 // dominated by the test that the read side is not closed - a send on the
 // closed channel panics the serve goroutine.
 func c15WakeUpOnlyOpenReaders(c *cx, id string) {
-	f := c.fn(id, "ibb", "handlePayload")
-	if f == nil {
+	if c.fn(id, "ibb", "handlePayload") == nil {
 		return
 	}
 	n := 0
-	for _, op := range chanOps(f) {
-		if op.kind != "send" || op.class != "ibb.Conn.readReady" {
+	// every send on the wake-up channel, wherever it is written (a Read that
+	// "passes the wake-up on" after a partial read sends on the channel that
+	// the peer's close has closed already)
+	for _, f := range c.allFns() {
+		if !strings.HasPrefix(f.Short, "ibb.") {
 			continue
 		}
-		n++
-		c.domAny(id, f, op.node, "wake-up of the reader", []string{"!*.readClosed"})
+		for _, op := range chanOps(f) {
+			if op.kind != "send" || op.class != "ibb.Conn.readReady" {
+				continue
+			}
+			n++
+			c.domAny(id, f, op.node, "wake-up of the reader", []string{"!*.readClosed"})
+		}
 	}
-	c.r.Floor(id, "wake-up sends in handlePayload", n, 1)
+	c.r.Floor(id, "wake-up sends in ibb", n, 1)
 }
 
 // c15EverySentPacketCounted (C15.23): packets are numbered consecutively: the
@@ -1319,4 +1327,33 @@ func c15HandlerEncoderStays(c *cx, id string) {
 		_ = all
 	}
 	c.r.Floor(id, "stores into stanzaWriter.t", n, 1)
+}
+
+// c15MessageCarrierDecodedWhole (C15.29): a packet carried by a message is the
+// <data/> child of that message, wherever it stands among the children
+// (thread, body, delay and processing hints may come first): HandleMessage
+// decodes the whole stanza into dataMessage and lets encoding/xml find the
+// child. Decoding "the payload" as the first child fails on every message
+// that has something in front of <data/>, and the decoding error ends the
+// whole XMPP session.
+func c15MessageCarrierDecodedWhole(c *cx, id string) {
+	f := c.fn(id, "ibb", "(*Handler).HandleMessage")
+	if f == nil {
+		return
+	}
+	n := 0
+	for _, callee := range []string{"encoding/xml.Decoder.Decode", "encoding/xml.Decoder.DecodeElement"} {
+		for _, cl := range f.Calls(callee) {
+			n++
+			t := f.Info().TypeOf(cl.Args[0])
+			ts := ""
+			if t != nil {
+				ts = eng.TypeStr(t)
+			}
+			c.r.Check(id, f, "decode target of a message carrier", "K: the stanza is decoded as a whole (*ibb.dataMessage): the data child is found wherever it stands", cl.Pos(), ts == "*ibb.dataMessage", "decodes into "+ts)
+		}
+	}
+	c.r.Floor(id, "decodes in HandleMessage", n, 1)
+	nt := len(f.Calls("encoding/xml.Decoder.Token")) + len(f.Calls("encoding/xml.TokenReader.Token"))
+	c.r.Check(id, f, "tokens popped before the decode", "K: none (the decoder sees the message from its start element)", f.Pos(), nt == 0, "HandleMessage reads tokens itself before decoding")
 }
